@@ -418,7 +418,7 @@ func (fsm *FSM) Restore(snap io.ReadCloser) error {
 		glog.Error(err)
 	}
 
-	ircServer = ircserver.NewIRCServer(*network, time.Now())
+	setIRCServer(ircserver.NewIRCServer(*network, time.Now()))
 	outputStream, err = outputstream.NewOutputStream(*raftDir)
 	if err != nil {
 		log.Fatal(err)
